@@ -315,6 +315,8 @@ package ircserver
 //@     invariant forall k int :: 0 <= k && k < len(deletes) ==> deletes[k] != nil && allocated(deletes[k]) && deletes[k].Type == robust.DeleteSession && deletes[k].Session.Reply == 0 && deletes[k].Session in i.sessions && time.Since(i.sessions[deletes[k].Session].LastActivity) > i.Config.SessionExpiration
 //@     invariant forall id robust.Id :: seen(id) && id.Reply == 0 && time.Since(i.sessions[id].LastActivity) > i.Config.SessionExpiration ==> (exists k int :: 0 <= k && k < len(deletes) && deletes[k].Session == id)
 //@     invariant forall id robust.Id :: seen(id) ==> id in i.sessions
+// the witness for the session just expired: the last element of the extended list
+//@   assert@after append#0 : appended: len(callres) >= 1 && callres[len(callres) - 1].Session == id
 
 // ---------------------------------------------------------------------------
 // Command handlers. Every function registered in Commands inherits the
@@ -969,6 +971,8 @@ package ircserver
 // from the entry's timestamp when the session is created).
 //@ func IRCServer.Marshal
 //@   opt sidx0 = true
+//@   opt backpatterns = true
+//@   opt groundhints = true
 //@   requires state: i != nil && wfLocks(i) && sessShape(i) && i.channels != nil && i.svsholds != nil && i.Config.Banned != nil
 // no two sessions own nicknames that are equal under the case mapping (wfOwner, wfNicks: the handlers' invariant)
 //@   requires only-sessnicks-owner: wfOwner(i) && wfNicks(i) && wfAlive(i)
@@ -1260,6 +1264,8 @@ package ircserver
 //@ func IRCServer.Unmarshal
 //@   opt dead = return#1 return#2 return#3 return#4 return#5
 //@   opt sidx0 = true
+//@   opt backpatterns = true
+//@   opt groundhints = true
 //@   requires fresh-server: i != nil && i.sessions != nil && i.nicks != nil && i.channels != nil && i.svsholds != nil && (forall x robust.Id :: !(x in i.sessions)) && (forall n lcNick :: !(n in i.nicks)) && (forall n lcNick :: !(n in i.svsholds)) && (forall ch lcChan :: !(ch in i.channels)) && len(i.serverSessions) == 0
 //@   assume@after proto.Unmarshal#0 : written-by-marshal: wfSnapSessions(addrof(snapshot)) && wfSnapTop(addrof(snapshot)) && wfSnapNicks(addrof(snapshot)) && wfSnapHolds(addrof(snapshot)) && wfSnapChannels(addrof(snapshot))
 //@   loopinv i.sessions != nil && i.nicks != nil && i.channels != nil && i.svsholds != nil && wfSnapSessions(addrof(snapshot)) && wfSnapTop(addrof(snapshot)) && wfSnapNicks(addrof(snapshot)) && wfSnapHolds(addrof(snapshot)) && wfSnapChannels(addrof(snapshot))
